@@ -122,3 +122,30 @@ def overlay(m, meta):
             os.close(a_)
             os.close(b_)
     return {"reproduced": bool(problems), "input": "a pop-up moved over a kitty image widget, real draw_screen()", "observed": problems[:2]}
+
+
+def alloc(m, meta):
+    """z-indexes of live kitty image widgets: pairwise distinct, within the signed 32-bit range excluding its minimum, recycled
+    only after the widget that held them is gone"""
+    import gc, random
+    import tests  # noqa: F401
+    from PIL import Image
+    from term_image.image import BlockImage, KittyImage
+    from term_image.widget import UrwidImage
+    KittyImage._supported = True
+    rng = random.Random(8)
+    img = Image.new("RGB", (4, 4))
+    live, problems = [], []
+    for step in range(600):
+        if live and rng.random() < 0.45:
+            live.pop(rng.randrange(len(live)))
+            gc.collect()
+        else:
+            live.append(UrwidImage(KittyImage(img) if rng.random() < 0.8 else BlockImage(img)))
+        zs = [w._ti_z_index for w in live if isinstance(w._ti_image, KittyImage)]
+        if len(set(zs)) != len(zs) or any(not (-(1 << 31) < z < (1 << 31)) for z in zs):
+            problems.append({"step": step, "z-indexes of the live kitty widgets": sorted(zs)[:12]})
+            break
+    del live
+    gc.collect()
+    return {"reproduced": bool(problems), "input": "600 random creations / deletions of image widgets", "observed": problems[:1]}
